@@ -74,6 +74,10 @@ def node_canon(node, drop=()):
     return (node.name, freeze(d))
 
 
+def _third(m):
+    return m[2]
+
+
 def md_key(md):
     return repr(freeze(md))
 
@@ -135,17 +139,17 @@ class NetWorld:
             if ev.target is self.net:
                 md = ev.context["metadata"]
                 self.on_send(ev.event_type, md)
-                self.msgs.append((ev.event_type, md))
+                self.msgs.append((ev.event_type, md, ev.event_type + " " + repr(sorted(md.items()))))
             else:
                 self.timers.append((self.epoch, ev))
-        self.msgs.sort(key=lambda m: (m[0], md_key(m[1])))
+        self.msgs.sort(key=_third)
 
     def on_send(self, etype, md):
         """Ghost hook: a message was put on the network."""
 
     # -- moves ------------------------------------------------------------
     def msg_desc(self, m):
-        etype, md = m
+        etype, md = m[0], m[1]
         rest = {k: v for k, v in md.items() if k not in ("source", "destination")}
         return f"{etype} {md.get('source')}->{md.get('destination')} {rest}"
 
@@ -161,11 +165,10 @@ class NetWorld:
         seen = set()
         for i, m in enumerate(self.msgs):
             if self.deliverable(m):
-                d = self.msg_desc(m)
-                if d in seen:  # identical messages: delivering either gives the same state
+                if m[2] in seen:  # identical messages: delivering either gives the same state
                     continue
-                seen.add(d)
-                labs.append(("deliver", i, d))
+                seen.add(m[2])
+                labs.append(("deliver", i, self.msg_desc(m)))
         live = self.live_timers()
         if live and self.timers_enabled():
             oldest = min(t[0] for _, t in live)
@@ -194,7 +197,7 @@ class NetWorld:
                 if self.msg_desc(m) != lab[2]:
                     raise RuntimeError(f"replay mismatch: {lab} vs {self.msg_desc(m)}")
                 del self.msgs[i]
-                etype, md = m
+                etype, md = m[0], m[1]
                 dst = self.by_name[md["destination"]]
                 ev = Event(time=self.clock.now, event_type=etype, target=dst, daemon=True,
                            context={"metadata": md})
@@ -230,7 +233,7 @@ class NetWorld:
 
     # -- canonical state ----------------------------------------------------
     def canon_msgs(self):
-        return tuple((m[0], md_key(m[1])) for m in self.msgs)
+        return tuple(m[2] for m in self.msgs)
 
     def canon_timers(self):
         live = [t for t in self.timers if not t[1].cancelled]
